@@ -441,8 +441,11 @@ func runCase(cs caseT) (obs []Sx, nontrivial bool, flip bool) {
 		}
 	}
 	branches := []branchT{{td0, bc0}}
+	// the per-branch memory of every branch after a step; a branch whose memory reads exactly as after
+	// the previous step is not repeated (the driver then requires the model's branch to be unchanged too)
+	var lastSnap []string
 	snapshot := func() Sx {
-		l := make([]Sx, len(branches))
+		l := []Sx{I(len(branches))}
 		for i, b := range branches {
 			pc, has, pt := api.TreeDiffState(b.td)
 			st := api.BlobCacheState(b.bc)
@@ -455,7 +458,17 @@ func runCase(cs caseT) (obs []Sx, nontrivial bool, flip bool) {
 			for j, k := range keys {
 				ks[j] = L(I(r.id(k)), I(r.id(st[k].Hash)), I(len(st[k].Data)), I(checksum(st[k].Data)))
 			}
-			l[i] = T("b", I(r.id(pc)), B(has), I(r.id(pt)), L(ks...))
+			s := T("b", I(i), I(r.id(pc)), B(has), I(r.id(pt)), L(ks...))
+			str := s.String()
+			if i < len(lastSnap) && lastSnap[i] == str {
+				continue
+			}
+			if i < len(lastSnap) {
+				lastSnap[i] = str
+			} else {
+				lastSnap = append(lastSnap, str)
+			}
+			l = append(l, s)
 		}
 		return T("all", l...)
 	}
